@@ -1,8 +1,9 @@
 """C20 — The default timestamp is the correct UTC calendar time for every instant.
 
-Leg A: theorems of coq/theories/Properties/C20.v over Time/Musl.v (datetime.rs transcribed on Z, constants from the
-       *generated* Gen_time_consts.v) against the specification Time/Civil.v.
-Leg B: translator (constants, every run) + correspondence: the strings the real code prints (hook H2) vs the model,
+Leg A: theorems of coq/theories/Properties/C20.v over Time/Musl.v = the *generated* Gen_time_consts.v (constants) and
+       Gen_datetime.v (every statement of From<SystemTime>::from and Display::fmt, translated from the source on every
+       run by translators/datetime_rs.py) in the vocabulary of Time/MuslBase.v, against the specification Time/Civil.v.
+Leg B: translators (constants + statements, every run) + correspondence: the strings the real code prints (hook H2) vs the model,
        (a) a few thousand instants evaluated by the Coq kernel (coq_eval, vm_compute), (b) every instant of the run
        through the model extracted to OCaml (built here from the current Musl.vo), debug and release builds.
 Leg C: oracle on the implementation's strings: CPython's datetime (driver/c20_oracle.py) on every instant, plus an
@@ -24,6 +25,7 @@ from vlib import Report, coq_prove, cargo_build, run_bin, coq_eval, gen_if_chang
 sys.path.insert(0, os.path.join(vlib.VERIF, "translators"))
 sys.path.insert(0, os.path.join(vlib.VERIF, "driver"))
 import time_consts as tc  # noqa: E402
+import datetime_rs as dtr  # noqa: E402
 import c20_oracle as orc  # noqa: E402
 
 I64_MIN, I64_MAX = -2 ** 63, 2 ** 63 - 1
@@ -32,7 +34,6 @@ SPECIAL_NS = [0, 1, 999, 1000, 1001, 499_999, 500_000, 999_499, 999_500, 999_999
               500_000_500, 999_999_499, 999_999_500, 999_999_999]
 TODS = [(0, 0), (43200, 500_000_500), (86399, 999_999_999)]
 OCAML_DIR = os.path.join(vlib.VERIF, "ocaml", "c20")
-F20_MSG = "duration.as_secs() <= i64::MAX"
 
 
 def ts(y, m=1, d=1, h=0, mi=0, s=0):
@@ -253,8 +254,9 @@ def build_ocaml_model(ctx):
     if rc != 0:
         return None, "coq make Musl.vo: " + vlib.last_error(out)
     h = hashlib.sha1()
-    for p in [os.path.join(vlib.COQ, "theories", "Time", "Musl.v"), os.path.join(vlib.COQ, "theories", "Time", "Ints.v"),
-              os.path.join(vlib.COQ, "gen", "Gen_time_consts.v"), os.path.join(OCAML_DIR, "extract.v"), os.path.join(OCAML_DIR, "main.ml")]:
+    for p in [os.path.join(vlib.COQ, "theories", "Time", "Musl.v"), os.path.join(vlib.COQ, "theories", "Time", "MuslBase.v"),
+              os.path.join(vlib.COQ, "theories", "Time", "Ints.v"), os.path.join(vlib.COQ, "gen", "Gen_time_consts.v"),
+              os.path.join(vlib.COQ, "gen", "Gen_datetime.v"), os.path.join(OCAML_DIR, "extract.v"), os.path.join(OCAML_DIR, "main.ml")]:
         h.update(open(p, "rb").read())
     key = h.hexdigest()[:16]
     d = os.path.join(vlib.CACHE, "ocaml-c20-" + ctx.repo_key, key)
@@ -353,14 +355,6 @@ def run_profile(ctx, rep, prof, h_time, model_exe, shards):
     return results
 
 
-def attribute(fail, prof):
-    """F20: the debug_assert at the earliest representable SystemTime, debug builds only."""
-    if (fail["what"] == "panic" and fail["sec"] == I64_MIN and fail["nsec"] == 0 and prof == "debug"
-            and F20_MSG in fail.get("detail_rs", "")):
-        return "F20"
-    return None
-
-
 def run(ctx):
     rep = Report(ctx)
     th = ctx.thorough()
@@ -373,7 +367,11 @@ def run(ctx):
                 "(thorough). non-trivial = within 2 days of a listed boundary, or before 1970 with tv_nsec != 0; distinct = distinct instant")
     rep.trusted_base = [
         "Coq 8.16.1 kernel + vm_compute (no native_compute)",
-        "translators/time_consts.py (constants of datetime.rs; fails closed via gen_time_unrecognised = [])",
+        "translators/time_consts.py (constants of datetime.rs) and translators/datetime_rs.py (every statement of From<SystemTime>::from and "
+        "Display::fmt -> Gen_datetime.v; a recursive-descent reader of the Rust subset the file is written in); both fail closed "
+        "(C20_source_recognised) and are exercised by the model-vs-implementation correspondence on every run",
+        "coq/theories/Time/MuslBase.v: the meaning given to Rust's integer operations per build profile (wrap / overflow panic / debug_assert), "
+        "std's SystemTime::duration_since and core::fmt's `{}` / `{:0w}` of integers",
         "Coq extraction to OCaml + ocamlopt + ocaml/c20/main.ml (volume path only; cross-checked against vm_compute on the coq_eval subset every run)",
         "harness h_time.rs (builds SystemTime = UNIX_EPOCH +/- Duration, calls the hook __verif_format_system_time)",
         "std: SystemTime::duration_since / Duration accessors (modelled by std_duration_since_epoch), fmt padding of integers",
@@ -389,6 +387,14 @@ def run(ctx):
     text, unrec = tc.main(ctx.repo, None)
     gen_if_changed(os.path.join(vlib.COQ, "gen", "Gen_time_consts.v"), text)
     rep.tie("translator:Gen_time_consts", not unrec, "; ".join(unrec[:4]), unrec[:1] or None)
+    text, unrec = dtr.main(ctx.repo, None)
+    gen_if_changed(os.path.join(vlib.COQ, "gen", "Gen_datetime.v"), text)
+    rep.tie("translator:Gen_datetime", not unrec, "; ".join(unrec[:4]), unrec[:1] or None)
+    rep.count("translated Rust operations (monadic steps in Gen_datetime.v)", text.count(" <- "))
+    # the translator reacts to edits of the source: follows them or refuses them, never ignores them (synthetic edits, text only)
+    n_self, self_fail = dtr.selftest(ctx.repo)
+    rep.tie("translator-selftest:Gen_datetime", not self_fail, "%d synthetic source edits; %s" % (n_self, "; ".join(self_fail[:3]) or "each followed or refused as expected"),
+            self_fail[:1] or None)
     # ---- leg A
     rep.proof = coq_prove(ctx, "C20", ["theories/Properties/C20.vo"])
     # ---- model binaries
@@ -448,7 +454,7 @@ def run(ctx):
                 else:
                     py_keys.add((x["what"], x["sec"], x["nsec"]))
                     fail = dict(x, detail_rs=rs_detail.get((x["sec"], x["nsec"]), ""))
-                    fid = attribute(fail, prof)
+                    fid = None      # F20 is repaired in /repo (a774a84): a fixed finding suppresses nothing
                     prev = None
                     desc = ["P %d %d" % (x["sec"], x["nsec"])]
                     if x["what"] == "order":
